@@ -2,8 +2,7 @@
 pub use std::sync::Arc;
 pub use vstd::std_specs::iter::{IteratorSpec, filter_iter, filter_fun};
 
-// std::os::fd::RawFd
-pub type RawFd = i32;
+// std::os::fd::RawFd comes from prelude/fs_path.rs
 
 // tokio::sync::Notify: waking waiters has no effect on simulation state (the woken tasks run later,
 // under their own contracts).
@@ -126,3 +125,40 @@ pub proof fn lemma_count_by_all<T>(s: Seq<T>, p: spec_fn(T) -> bool)
 {
     if s.len() > 0 { lemma_count_by_all(s.drop_last(), p); }
 }
+
+// ---- raw caller buffers (io_uring SQE pointers) -------------------------------------------------
+// ASSUMPTION (T4): the unsafe `std::slice::from_raw_parts(ptr, len)` is read as "the len bytes of the caller's
+// buffer at completion time", an uninterpreted function of (ptr, len).  Validity / aliasing of the pointer is the
+// caller's obligation (same as the real io_uring contract) and is not checked.
+pub uninterp spec fn raw_mem(ptr: *const u8, len: nat) -> Seq<u8>;
+pub broadcast axiom fn axiom_raw_mem_len(ptr: *const u8, len: nat) ensures (#[trigger] raw_mem(ptr, len)).len() == len;
+// @broadcast axiom_raw_mem_len
+#[verifier::external_body]
+pub fn raw_buf<'a>(ptr: *const u8, len: usize) -> (r: &'a [u8])
+    ensures r@ == raw_mem(ptr, len as nat)
+{ unimplemented!() }
+// the mutable twin: starts as the caller's bytes; what the function leaves in it is the caller's buffer afterwards
+#[verifier::external_body]
+pub fn raw_buf_mut<'a>(ptr: *mut u8, len: usize) -> (r: &'a mut [u8])
+    ensures r@ == raw_mem(ptr as *const u8, len as nat)
+{ unimplemented!() }
+
+// <[T]>::fill(v): every element becomes a clone of v
+pub assume_specification<T: Clone> [<[T]>::fill] (s: &mut [T], v: T)
+    ensures final(s)@.len() == old(s)@.len(), forall|i: int| 0 <= i < final(s)@.len() ==> vstd::pervasive::cloned::<T>(v, #[trigger] final(s)@[i]);
+
+// ---- VecDeque::drain(..) ----------------------------------------------------------------------
+#[verifier::external_type_specification]
+#[verifier::external_body]
+#[verifier::reject_recursive_types(T)]
+#[verifier::reject_recursive_types(A)]
+pub struct ExVecDequeDrain<'a, T: 'a, A: core::alloc::Allocator>(std::collections::vec_deque::Drain<'a, T, A>);
+// only the full range `..` is specified
+pub uninterp spec fn is_full_range<R>(r: R) -> bool;
+pub broadcast axiom fn axiom_range_full() ensures #[trigger] is_full_range::<core::ops::RangeFull>(..);
+// @broadcast axiom_range_full
+// drain(..): yields all elements front to back and leaves the deque empty (also when the iterator is
+// dropped early: the rest is dropped with it).  `collect()` on it is vstd's own specification.
+pub assume_specification<'a, T, A: core::alloc::Allocator, R: core::ops::RangeBounds<usize>> [VecDeque::<T, A>::drain] (v: &'a mut VecDeque<T, A>, range: R) -> (d: std::collections::vec_deque::Drain<'a, T, A>)
+    requires is_full_range(range),
+    ensures d.remaining() == old(v)@, final(v)@ == Seq::<T>::empty(), d.obeys_prophetic_iter_laws();
